@@ -1,27 +1,36 @@
 #!/usr/bin/env python3
-"""Apply every seeded change under /verif/seeded to /repo (one at a time), run the check(s) planned for it,
-undo the change, and write seeded/RESULTS.md. Not part of any registered check; run by hand."""
+"""Apply every seeded change under /verif/seeded (one at a time) to a scratch worktree of /repo's HEAD, run the check(s)
+planned for it against that worktree (VERIF_REPO, see ./check), undo the change, and write seeded/RESULTS.md. /repo
+itself is never touched, so this can run while /repo is being worked on. Not part of any registered check; run by hand.
+The worktree (SEEDREPO, default /tmp/seedrepo) is created if missing and removed at the end."""
 import json, os, re, subprocess, sys
 VERIF = os.path.dirname(os.path.dirname(os.path.abspath(__file__)))
 plan = json.load(open(os.path.join(VERIF, "seeded", "plan.json")))
 only = sys.argv[1:]
 rows = []
+WT = os.environ.get("SEEDREPO", "/tmp/seedrepo")
+head = subprocess.run(["git", "-C", "/repo", "rev-parse", "HEAD"], capture_output=True, text=True).stdout.strip()
+if not os.path.isdir(WT):
+    subprocess.run(["git", "-C", "/repo", "worktree", "add", "--detach", WT, head], check=True, capture_output=True)
+subprocess.run(["git", "-C", WT, "checkout", "-q", "--detach", head], check=True)
+subprocess.run(["git", "-C", WT, "checkout", "-q", "--", "."], check=True)
+env = dict(os.environ, VERIF_REPO=WT)
 for sid in sorted(plan):
     if only and sid not in only:
         continue
     for prop, tier in plan[sid]:
-        if subprocess.run(["git", "-C", "/repo", "diff", "--quiet"]).returncode != 0:
-            sys.exit("/repo not clean")
-        a = subprocess.run(["git", "-C", "/repo", "apply", os.path.join(VERIF, "seeded", sid, "patch.diff")], capture_output=True, text=True)
+        if subprocess.run(["git", "-C", WT, "diff", "--quiet"]).returncode != 0:
+            sys.exit("scratch worktree not clean")
+        a = subprocess.run(["git", "-C", WT, "apply", os.path.join(VERIF, "seeded", sid, "patch.diff")], capture_output=True, text=True)
         if a.returncode != 0:
             rows.append((sid, prop, tier, "patch does not apply", "", ""))
             continue
         try:
-            p = subprocess.run(["./check", prop, "--tier", tier], cwd=VERIF, capture_output=True, text=True, timeout=7200)
+            p = subprocess.run(["./check", prop, "--tier", tier], cwd=VERIF, capture_output=True, text=True, timeout=7200, env=env)
             out = p.stdout
             rc = p.returncode
         finally:
-            subprocess.run(["git", "-C", "/repo", "checkout", "--", "."])
+            subprocess.run(["git", "-C", WT, "checkout", "--", "."])
         vio = [l for l in out.split("\n") if l.startswith("VIOLATION")]
         und = [l for l in out.split("\n") if l.startswith("UNDECIDED")]
         cex = sum(1 for l in vio if not l.rstrip().endswith("no-failing-input-found"))
@@ -40,3 +49,5 @@ with open(os.path.join(VERIF, "seeded", "RESULTS.md"), "a" if only else "w") as 
         f.write("| seed | check | tier | verdict | failing units/harnesses | counterexamples |\n|---|---|---|---|---|---|\n")
     for r in rows:
         f.write("| " + " | ".join(r) + " |\n")
+if not os.environ.get("SEEDREPO_KEEP"):
+    subprocess.run(["git", "-C", "/repo", "worktree", "remove", "--force", WT])
